@@ -1,7 +1,16 @@
 # Property -> harness table used by ./check. One entry per property.
 CONV = "node/conversions"
 
+PEG = "node/pegnet"
+
 PROPS = {
+    # internal: engine / SQL model conformance smoke (not a property; not in MANIFEST)
+    "X00": {
+        "harnesses": [
+            {"func": "VerifSQLSmoke", "pkg": PEG, "pkgname": "pegnet", "load": ["./node/pegnet"],
+             "must_cover": ["sufficient", "insufficient"]},
+        ],
+    },
     "C07": {
         "harnesses": [
             {"func": "VerifConvert", "pkg": CONV, "pkgname": "conversions", "load": ["./node/conversions"],
